@@ -45,6 +45,7 @@ fn whole_file_hunk(lines: &[B], add: bool) -> HHunk {
         omit_count_one: n != 1,
         func: None,
         bare_empty_ctx: false,
+        localised_marker: false,
     }
 }
 
